@@ -590,9 +590,9 @@ func runUnit(w *casefile.Writer, r *rng.R, tier string) {
 	if tier == "thorough" {
 		k = 8
 	}
-	unitChunks(w, r.Fork(), 1500*k)
-	unitGen(w, r.Fork(), 400*k)
-	unitIter(w, r.Fork(), 500*k)
+	unitChunks(w, r.Fork(), 1000*k)
+	unitGen(w, r.Fork(), 300*k)
+	unitIter(w, r.Fork(), 400*k)
 	unitTok(w, r.Fork(), 150*k)
-	unitIDs(w, r.Fork(), 300*k)
+	unitIDs(w, r.Fork(), 200*k)
 }
